@@ -227,7 +227,8 @@ func (g *gen) genStatement(typ types.Type, this, that string) error {
 				if field.Private() && external {
 					thisField, thatField = field.Name("thisv", g.unsafePkg), field.Name("thatv", g.unsafePkg)
 				} else {
-					thisField, thatField = field.Name(this, nil), field.Name(that, nil)
+					// this may be a dereference (*this for a pointer to a pointer): *this.F would select first
+					thisField, thatField = field.Name(wrap(this), nil), field.Name(wrap(that), nil)
 				}
 				fieldStr, err := g.field(thisField, thatField, fieldType)
 				if err != nil {
